@@ -341,6 +341,8 @@ def subst(e, env):
     k = e[0]
     if k == 'param':
         a = env[e[1]]
+        if a.startswith('"'):           # a string literal as template argument
+            return ('lit', a[1:-1])
         return ('tok', a) if a.isupper() or a.lstrip('_').isupper() else ('rule', a)
     if k in ('tok', 'lit', 'rule'):
         return e
@@ -374,8 +376,10 @@ def gen_grammar(rng, rich=True):
     for i in range(1, n):
         names.append(('_' if rng.random() < 0.35 else '') + 'r%d' % i)
     templates = []
-    if rng.random() < 0.35:
+    if rng.random() < 0.45:
         templates.append(('_' if rng.random() < 0.4 else '') + 't1')
+
+    cur = {'bang': False}
 
     def leaf(i, in_tmpl=False):
         x = rng.random()
@@ -398,6 +402,13 @@ def gen_grammar(rng, rich=True):
             G.features.add('template')
             ok_later = [x for x in later if not nullable(('rule', x), G)]
             arg = rng.choice(list(named) + ok_later)
+            # a string literal as argument: lark creates it under the options of the USING rule, so it is only
+            # used from rules without `!` (then: kept iff the template instance keeps all tokens); literals whose
+            # text is also a named terminal's pattern are avoided (the instance name would coincide)
+            free = [c for c in lits if c not in named.values()]
+            if free and not cur['bang'] and rng.random() < 0.45:
+                arg = '"%s"' % rng.choice(free)
+                G.features.add('template-literal-arg')
             return ('tmpl', templates[0], [arg])
         return ('tok', rng.choice(list(named)))
 
@@ -447,6 +458,7 @@ def gen_grammar(rng, rich=True):
             mods += '?'
         if rng.random() < 0.22:
             mods += '!'
+        cur['bang'] = '!' in mods
         nalts = rng.choice([1, 1, 2, 2, 3])
         alts = []
         for k_alt in range(nalts):
@@ -479,7 +491,7 @@ def gen_grammar(rng, rich=True):
         mods = ''
         if not t.startswith('_') and rng.random() < 0.3:
             mods += '?'
-        if rng.random() < 0.2:
+        if rng.random() < 0.4:
             mods += '!'
         alts = []
         for _ in range(rng.choice([1, 2])):
@@ -935,3 +947,56 @@ def cyk_table_lit(nm, cap):
             cells.append('(%s, %s, %s, %s)' % (N(i), N(l), L([nm.rule(r) for r in rs]),
                                               L(['(%s, %s)' % (nm.nt(k.name), nm.tree(t)) for k, t in ts.items()])))
     return L(['(%s, %s)' % (S(str(t.type)), S(str(t))) for t in toks]), L(cells)
+
+
+def gen_shared_literal(rng):
+    """The `shared-literal` family: one anonymous literal ("x") and one named terminal (A) used in several rules
+    with different markers (plain, `!`, `?`, `_`), under EBNF operators, and as arguments of `!` / `?` / plain / `_`
+    templates - any aliasing of Terminal objects (or of their filter_out flag) across rules shows here."""
+    G = Gram()
+    G.named = {'A': 'a', 'B': 'b'}
+    G.features.add('shared-literal')
+    lit = rng.choice(['x', 'y'])
+    other = 'y' if lit == 'x' else 'x'
+    X, A, Bt = ('lit', lit), ('tok', 'A'), ('tok', 'B')
+    bodies = {
+        'ra': [('seq', [X, A])],
+        'rb': [('seq', [('plus', ('seq', [X, A]))])],
+        'rc': [('seq', [('opt', X), A, X])],
+        '_rd': [('seq', [X, Bt])],
+    }
+    mods = {k: rng.choice(['', '', '!', '?', '!?']) for k in ('ra', 'rb', 'rc')}
+    mods['_rd'] = rng.choice(['', '!'])
+    tmods = {'t1': rng.choice(['', '!', '!', '?', '!?']), '_t2': rng.choice(['', '!', '!'])}
+    tbodies = {'t1': [('seq', [('lit', other), ('param', 'p')]), ('seq', [('param', 'p'), ('param', 'p'), ('lit', other)])],
+               '_t2': [('seq', [('param', 'p'), Bt])]}
+    uses = [('tmpl', 't1', ['"%s"' % lit]), ('tmpl', '_t2', ['"%s"' % lit]), ('tmpl', 't1', ['A']), ('tmpl', '_t2', ['A'])]
+    rng.shuffle(uses)
+    items = [('rule', k) for k in ('ra', 'rb', 'rc', '_rd')] + uses[:rng.randint(2, 4)]
+    rng.shuffle(items)
+    body = []
+    for k, it in enumerate(items):
+        if k:
+            body.append(('lit', ','))
+        body.append(it)
+    start = dict(name='start', mods='', alts=[(('seq', body), None)], tsrc=None)
+    G.rules = [start]
+    lines = ['start: ' + render(('seq', body), True)]
+    for k in ('ra', 'rb', 'rc', '_rd'):
+        r = dict(name=k, mods=mods[k], alts=[(b, None) for b in bodies[k]], tsrc=None)
+        G.rules.append(r)
+        pre = ('!' if '!' in mods[k] else '') + ('?' if '?' in mods[k] else '')
+        lines.append('%s%s: %s' % (pre, k, ' | '.join(render(b, True) for b in bodies[k])))
+    done = set()
+    for u in uses:
+        if u in items and inst_name(u) not in done:
+            done.add(inst_name(u))
+            G.rules.append(dict(name=inst_name(u), mods=tmods[u[1]], tsrc=u[1],
+                                alts=[(subst(b, {'p': u[2][0]}), None) for b in tbodies[u[1]]]))
+    for t in ('t1', '_t2'):
+        pre = ('!' if '!' in tmods[t] else '') + ('?' if '?' in tmods[t] else '')
+        lines.append('%s%s{p}: %s' % (pre, t, ' | '.join(render(b, True) for b in tbodies[t])))
+    lines += ['A: "a"', 'B: "b"']
+    G.by_name = {r['name']: r for r in G.rules}
+    G.text = '\n'.join(lines) + '\n'
+    return G
